@@ -2,6 +2,7 @@ import threading
 from typing import Dict, List, Optional, Set, Tuple, Type, Union
 
 import inflection
+from ordered_set import OrderedSet
 
 from . import BaseType
 from .base import ImportPathList, MetaData
@@ -16,8 +17,9 @@ class ModelMeta(SingleType):
         super().__init__(t)
         self.original_fields: List[List[str]] = _original_fields or [list(self.type.keys())]
         self.index: str = index
-        self.pointers: Set[ModelPtr] = set()
-        self.child_pointers: Set[ModelPtr] = set()  # parent ref (pointers that have ptr.parent == self)
+        # Ordered sets: ModelPtr is hashed by id(), so iteration order of a plain set depends on memory layout
+        self.pointers: Set[ModelPtr] = OrderedSet()
+        self.child_pointers: Set[ModelPtr] = OrderedSet()  # parent ref (pointers that have ptr.parent == self)
         self._name: Optional[str] = None
         self._name_generated: Optional[bool] = None
 
